@@ -239,6 +239,37 @@ class _Os:
     def rename(a, b):
         _rename(a, b)
 
+    replace = rename
+
+    @staticmethod
+    def remove(a):
+        if a not in CUR.files:
+            raise OSError(2, 'No such file or directory', a)
+        del CUR.files[a]
+        CUR.prim('remove %s' % a)
+
+    unlink = remove
+
+
+def repo_atomic_replace():
+    """pysyncobj.atomic_replace.atomicReplace as it is in the tree under test: the OS primitive itself is one atomic step on
+    the symbolic disk; anything else is the repository's own code and runs with its `os` on the symbolic disk, so that each of
+    its primitives is a crash point"""
+    import os as real_os
+    import pysyncobj.atomic_replace as ar
+    fn = ar.atomicReplace
+    if fn is real_os.rename or fn is getattr(real_os, 'replace', None):
+        return _Os.rename
+
+    def call(a, b):
+        saved = ar.os
+        ar.os = _Os
+        try:
+            return fn(a, b)
+        finally:
+            ar.os = saved
+    return call
+
 
 class _Shutil:
     @staticmethod
